@@ -43,6 +43,10 @@ func orderOwners(s *explore.State, pool uint64) map[string]bool {
 	return m
 }
 
+// c03EarlyCode: response codes that the executor (also) returns before a transaction's own Run,
+// i.e. before the failure-fee branch; for these it is not known whether a fee is due.
+var c03EarlyCode = map[uint32]bool{101: true, 102: true, 106: true, 109: true, 110: true, 113: true, 114: true, 115: true, 119: true, 124: true, 603: true, 604: true, 606: true, 609: true}
+
 func (FailedTxOnlyFee) Check(t *explore.Transition) ([]V, bool) {
 	r := t.LastTx()
 	if r == nil || t.Parent == nil || t.Cur.Fault != nil || t.Parent.Final() == nil || t.Cur.Final() == nil {
@@ -63,8 +67,10 @@ func (FailedTxOnlyFee) Check(t *explore.Transition) ([]V, bool) {
 	diff := twinDiff(t)
 	// on a payout block the fee is paid out to delegators' stakes within the same block: the
 	// twin difference is then spread over stakes and is not judged (the nonce rule still is)
+	payoutBlock := false
 	if sp := int64(t.W.P.StakePeriod); sp > 0 && t.Cur.Last().Height%sp == 0 {
 		diff = nil
+		payoutBlock = true
 	}
 	rewardSum := new(big.Int)
 	par := t.Parent.Final()
@@ -123,6 +129,37 @@ func (FailedTxOnlyFee) Check(t *explore.Transition) ([]V, bool) {
 			out = append(out, V{Signature: fmt.Sprintf("rejected|%s|code%d|%s", ty, r.Resp.Code, obs.KeyClass(k)),
 				Detail: fmt.Sprintf("tx %q rejected with code %d (%s) but %s [%s]", r.T.Name, r.Resp.Code, r.Resp.Log, d, bad)})
 			break
+		}
+	}
+	// the fee itself: a transaction that got as far as its own Run (codes that only Run returns)
+	// pays a positive fee from a payer who holds the commission coin: the amount of tag tx.fail_fee,
+	// at most the balance; in base coin it is exactly min(balance, gas price x (FailedTx + bytes x byte price))
+	if inf.OK && !payoutBlock && !c03EarlyCode[r.Resp.Code] {
+		have := obs.Num(par.Flat[payerBal])
+		if have.Sign() > 0 {
+			feeTag, hasFee := tagOf(r, "tx.fail_fee")
+			fee := obs.Num(feeTag)
+			delta := new(big.Int).Sub(obs.Num(t.Cur.Final().Flat[payerBal]), obs.Num(par.Flat[payerBal]))
+			// the payer may also be a maker of the commission pool and receive coins back: only judged otherwise
+			maker := owners[inf.Payer.String()]
+			switch {
+			case !hasFee || fee.Sign() <= 0:
+				out = append(out, V{Signature: fmt.Sprintf("rejected-without-fee|%s|code%d", ty, r.Resp.Code), Detail: fmt.Sprintf("tx %q rejected by its Run (code %d) and the payer holds %s of the commission coin %d, but no failure fee was charged", r.T.Name, r.Resp.Code, have, gas)})
+			case fee.Cmp(have) > 0:
+				out = append(out, V{Signature: fmt.Sprintf("failure-fee-above-balance|%s|code%d", ty, r.Resp.Code), Detail: fmt.Sprintf("tx %q: failure fee %s, the payer holds %s of coin %d", r.T.Name, fee, have, gas)})
+			case !maker && new(big.Int).Neg(delta).Cmp(fee) != 0:
+				out = append(out, V{Signature: fmt.Sprintf("failure-fee-not-what-was-debited|%s|code%d", ty, r.Resp.Code), Detail: fmt.Sprintf("tx %q: tag tx.fail_fee=%s, the payer's balance of coin %d changed by %s", r.T.Name, fee, gas, delta)})
+			case gas == 0 && par.Export.Commission.Coin == 0:
+				tb := tableOf(&par.Export.Commission)
+				bytes := int64(len(inf.Tx.Payload) + len(inf.Tx.ServiceData))
+				want := new(big.Int).Mul(big.NewInt(int64(inf.Tx.GasPrice)), new(big.Int).Add(tb["FailedTx"], new(big.Int).Mul(big.NewInt(bytes), tb["PayloadByte"])))
+				if want.Cmp(have) > 0 {
+					want = have
+				}
+				if fee.Cmp(want) != 0 {
+					out = append(out, V{Signature: fmt.Sprintf("failure-fee-amount|%s|code%d", ty, r.Resp.Code), Detail: fmt.Sprintf("tx %q: failure fee %s BIP, expected min(balance %s, price) = %s", r.T.Name, fee, have, want)})
+				}
+			}
 		}
 	}
 	if len(out) == 0 && rewardSum.Sign() < 0 {
